@@ -206,9 +206,11 @@ def run(ctx):
     for i in range(ngram):
         tool = rng.choice(['cnfgen'] * 4 + ['pbgen'])
         argv = [str(a) for a in cligen.valid_cmdline(rng, tool, seed=rng.choice([None, 0, 7]), allow_random=True)]
-        kind = rng.choice(['valid', 'valid', 'drop', 'junk', 'unknown-option', 'boundary', 'empty-token', 'help', 'dup-T', 'bad-file'])
+        kind = rng.choice(['valid', 'valid', 'drop', 'truncate', 'junk', 'unknown-option', 'boundary', 'empty-token', 'help', 'dup-T', 'bad-file'])
         if kind == 'drop' and len(argv) > 1:
             del argv[rng.randrange(len(argv))]
+        elif kind == 'truncate' and len(argv) > 1:
+            del argv[-rng.randint(1, min(2, len(argv) - 1)):]
         elif kind == 'junk':
             argv.insert(rng.randrange(len(argv) + 1), rng.choice(['foo', '-', '--', '3.7', 'gnp', 'save', '0x10', '١']))
         elif kind == 'unknown-option':
@@ -229,6 +231,62 @@ def run(ctx):
             argv = ['kcolor', '2', rng.choice([base, os.path.join(base, 'missing.gml'), '/dev/null', 'gml', 'kthlist', 'dot'])]
         ctx.tally('grammar perturbation', kind)
         jobs.append(('grammar', tool, argv, b'', None, None))
+
+    # ---------------- stream graphspec: numeric arguments of the graph constructions inside, at and beyond their range ----------------
+    gs = []
+    small = [0, 1, 2, 3, 4]
+    for L in (1, 2, 3, 4, 6):
+        for R in (1, 2, 3, 4):
+            for d in small + [5, 6]:
+                gs.append(['php', 'regular', L, R, d])
+                gs.append(['php', 'glrd', L, R, d])
+            for m_ in (0, 1, L * R // 3, L * R // 3 + 1, L * R - 1, L * R, L * R + 1):
+                gs.append(['php', 'glrm', L, R, m_])
+    for n in (0, 1, 2, 3, 4, 5):
+        for d in (0, 1, 2, 3, 4, 5):
+            gs.append(['kcolor', 2, 'gnd', n, d])
+            gs.append(['op', n, d])
+        for m_ in (0, 1, n * (n - 1) // 2, n * (n - 1) // 2 + 1):
+            gs.append(['kcolor', 2, 'gnm', n, m_])
+        for k_ in (0, 1, n, n + 1):
+            gs.append(['kclique', 2, 'gnp', n, '.5', 'plantclique', k_])
+            gs.append(['kcolor', 2, 'complete', n, 'addedges', k_])
+            gs.append(['kcolor', 2, 'gnm', n, min(2, n * (n - 1) // 2), 'splitedges', k_])
+        gs.append(['peb', 'pyramid', n])
+        gs.append(['peb', 'tree', n])
+        gs.append(['stone', 2, 'path', n, '--sparse', n])
+        gs.append(['tseitin', n, 3])
+        gs.append(['subsetcard', n, 2])
+    gs += [['kcolor', 2, 'gnp', 3, p_] for p_ in ('-0.1', '0', '1', '1.1', 'x')]
+    gs += [['php', 'shift', 3, 4] + pat for pat in ([], [0], [1, 2], [4], [5], [-1], [1, 1])]
+    gs += [['kcolor', 2, 'grid'] + dims for dims in ([], [0], [1], [2, 2], [2, 0], [-1, 2])] + [['kcolor', 2, 'torus'] + dims for dims in ([], [2], [3, 3], [1, 1])]
+    gs += [['php', 'complete', a_, b_] for a_ in (0, 1, 2) for b_ in (0, 1, 2)] + [['php', 'empty', 0, 0], ['kcolor', 2, 'empty', 0], ['kcolor', 2, 'complete', 0]]
+    gsel = gs if not quick else rng.sample(gs, 170)
+    for g_ in gsel:
+        argv = ['-q'] + [str(x) for x in g_]
+        # a `save` with and without its file name, at the end of the graph argument
+        r_ = rng.random()
+        if r_ < 0.12:
+            argv += ['save', os.path.join(base, 'saved%d.kthlist' % len(jobs))]
+        elif r_ < 0.2:
+            argv += ['save']
+        elif r_ < 0.25:
+            argv += ['save', 'kthlist']
+        ctx.tally('graphspec construction', str(g_[1]) if not str(g_[1]).lstrip('-').isdigit() else str(g_[2]) if len(g_) > 2 and not str(g_[2]).lstrip('-').isdigit() else g_[0])
+        jobs.append(('graphspec', rng.choice(['cnfgen', 'cnfgen', 'pbgen']), argv, b'', None, None))
+    # transformations given an explicit graph
+    for t_ in (['xorcomp', 'glrd', 6, 3, 2], ['majcomp', 'glrd', 6, 3, 4], ['xorcomp', 'regular', 6, 3, 2], ['xorcomp', 'regular', 6, 3, 4], ['majcomp', 'glrd', 5, 3, 2],
+               ['xorcomp', 'glrd', 6, 3, 2, 'save'], ['xorcomp', 6, 7], ['xorcomp', 0, 1], ['majcomp', 'complete', 6, 2]):
+        jobs.append(('graphspec', 'cnfgen', ['-q', 'php', '3', '2', '-T'] + [str(x) for x in t_], b'', None, None))
+
+    # ---------------- stream stdin: formulas read from a pipe (not seekable) ----------------
+    for text in ('p cnf 2 2\n1 -2 0\n2 0\n', 'p cnf 0 0\n', 'c only a comment\n', '', 'p cnf 2 1\n1 3 0\n', 'p cnf 3 2\n1 -3 0\n2 3 -1 0\n'):
+        for extra in ([], ['-T', 'flip'], ['-T', 'xor', '2'], ['-T', 'shuffle']):
+            for pre in ([], ['-q'], ['-of', 'opb'], ['-of', 'latex']):
+                if quick and rng.random() < 0.5:
+                    continue
+                jobs.append(('stdin', 'cnfgen', pre + ['dimacs'] + extra, text.encode(), None, None))
+                ctx.tally('stdin formula', 'valid' if text.startswith('p cnf') and '3 0' not in text.split('\n')[1:2] else 'other')
 
     # ---------------- stream files: malformed inputs ----------------
     files = {
